@@ -144,7 +144,7 @@ slaqgs(SuperMatrix *A, float *r, float *c,
 	    cj = c[j];
 	    for (i = Astore->colptr[j]; i < Astore->colptr[j+1]; ++i) {
 		irow = Astore->rowind[i];
-		Aval[i] *= cj * r[irow];
+		Aval[i] = (Aval[i] * r[irow]) * cj; /* cj * r[irow] may overflow */
 	    }
 	}
 	*(unsigned char *)equed = 'B';
